@@ -181,10 +181,18 @@ type fileRec struct {
 	gid    int
 	mtime  int64
 	data   []byte
+	sizeD  int // what the reader reports as the file's size is len(data)+sizeD (a file that changed after its size was taken; sysfs/procfs)
 	target string
 	major  uint64
 	minor  uint64
 	xattrs map[string]string
+}
+
+func (f fileRec) size() int {
+	if n := len(f.data) + f.sizeD; n > 0 {
+		return n
+	}
+	return 0
 }
 
 func (f fileRec) fileMode() os.FileMode {
@@ -218,7 +226,7 @@ func (f fileRec) String() string {
 	return fmt.Sprintf("%s,%s,%s,%s,%d,%d,%d,%d,%d,%s,%s,%d,%d,%s",
 		hx([]byte(path.Base(f.name))), hx([]byte(f.path)), hx([]byte(path.Dir(f.path))), f.kind,
 		uint64(desync.FilemodeToStatMode(f.fileMode())), uint64(f.uid), uint64(f.gid), uint64(f.mtime),
-		len(f.data), hx(f.data), hx([]byte(f.target)), f.major, f.minor, strings.Join(xs, "|"))
+		f.size(), hx(f.data), hx([]byte(f.target)), f.major, f.minor, strings.Join(xs, "|"))
 }
 
 type recReader struct {
@@ -232,7 +240,7 @@ func (r *recReader) Next() (*desync.File, error) {
 	}
 	f := r.recs[r.i]
 	r.i++
-	out := &desync.File{Name: f.name, Path: f.path, Mode: f.fileMode(), Size: uint64(len(f.data)), LinkTarget: f.target,
+	out := &desync.File{Name: f.name, Path: f.path, Mode: f.fileMode(), Size: uint64(f.size()), LinkTarget: f.target,
 		ModTime: time.Unix(0, f.mtime), Uid: f.uid, Gid: f.gid, DevMajor: f.major, DevMinor: f.minor, Xattrs: f.xattrs}
 	if f.kind == "reg" {
 		out.Data = io.NopCloser(bytes.NewReader(f.data))
@@ -273,6 +281,9 @@ func parseRecs(s string) []fileRec {
 		rec.perm = uint32(fm & (os.ModePerm | os.ModeSetuid | os.ModeSetgid | os.ModeSticky))
 		rec.uid, rec.gid, rec.mtime = int(uid), int(gid), int64(mt)
 		rec.data = unhx(f[9])
+		var sz int
+		fmt.Sscan(f[8], &sz)
+		rec.sizeD = sz - len(rec.data)
 		rec.target = string(unhx(f[10]))
 		fmt.Sscan(f[11], &rec.major)
 		fmt.Sscan(f[12], &rec.minor)
